@@ -29,7 +29,7 @@ man = dict(
     version=1,
     setup_cmd="true",
     hooks=dict(guard="LIBECONF_VERIF", enable="none needed: contracts and loop clauses are side-car files under /verif/contracts, injected into scratch copies of /repo sources on every run",
-               baseline_off_cmd="cmake -G Ninja -B /repo/_build -S /repo && cmake --build /repo/_build && ctest --test-dir /repo/_build -j8 --timeout 900",
+               baseline_off_cmd="cmake -G Ninja -B /repo/_build -S /repo && cmake --build /repo/_build && cmake --build /repo/_build --target check && ctest --test-dir /repo/_build -j8 --timeout 900",
                source_commits=[], add_only=True),
     engines=[dict(name="cbmc-dfcc", path="/verif/check", serves_properties=claimed,
                   kind_free_text="CBMC 6.11 code contracts: goto-cc -> goto-instrument --dfcc --enforce-contract/--replace-call-with-contract/--apply-loop-contracts -> cbmc")],
